@@ -10,6 +10,7 @@ import (
 
 	"github.com/nspcc-dev/neo-go/pkg/core"
 	"github.com/nspcc-dev/neo-go/pkg/core/block"
+	"github.com/nspcc-dev/neo-go/pkg/core/interop/interopnames"
 	"github.com/nspcc-dev/neo-go/pkg/core/native/nativehashes"
 	"github.com/nspcc-dev/neo-go/pkg/core/native/nativeids"
 	"github.com/nspcc-dev/neo-go/pkg/core/native/noderoles"
@@ -20,6 +21,7 @@ import (
 	"github.com/nspcc-dev/neo-go/pkg/smartcontract/trigger"
 	"github.com/nspcc-dev/neo-go/pkg/util"
 	"github.com/nspcc-dev/neo-go/pkg/vm/emit"
+	"github.com/nspcc-dev/neo-go/pkg/vm/opcode"
 	"github.com/nspcc-dev/neo-go/pkg/vm/stackitem"
 
 	"verif/harness/internal/chainx"
@@ -230,11 +232,43 @@ func invokeGetters(w *world, bc *core.Blockchain) string {
 	emit.AppCall(bw.BinWriter, nativehashes.PolicyContract, "getExecPicoFeeFactor", callflag.ReadOnly)
 	emit.AppCall(bw.BinWriter, nativehashes.PolicyContract, "getAttributeFee", callflag.ReadOnly, int64(transaction.ConflictsT))
 	emit.AppCall(bw.BinWriter, nativehashes.OracleContract, "getPrice", callflag.ReadOnly)
+	for _, t := range attrTypes {
+		emit.AppCall(bw.BinWriter, nativehashes.PolicyContract, "getAttributeFee", callflag.ReadOnly, int64(t))
+	}
+	emit.AppCall(bw.BinWriter, nativehashes.PolicyContract, "getMaxValidUntilBlockIncrement", callflag.ReadOnly)
+	emit.AppCall(bw.BinWriter, nativehashes.PolicyContract, "getMaxTraceableBlocks", callflag.ReadOnly)
+	emit.AppCall(bw.BinWriter, nativehashes.PolicyContract, "getMillisecondsPerBlock", callflag.ReadOnly)
+	emit.AppCall(bw.BinWriter, nativehashes.PolicyContract, "getFeePerByte", callflag.ReadOnly)
+	emit.AppCall(bw.BinWriter, nativehashes.PolicyContract, "getStoragePrice", callflag.ReadOnly)
+	emit.AppCall(bw.BinWriter, nativehashes.ContractManagement, "getMinimumDeploymentFee", callflag.ReadOnly)
+	emit.AppCall(bw.BinWriter, nativehashes.Notary, "getMaxNotValidBeforeDelta", callflag.ReadOnly)
+	// the whitelisted-fee list, element by element: iterator on top, values accumulate below it
+	emit.AppCall(bw.BinWriter, nativehashes.PolicyContract, "getWhitelistFeeContracts", callflag.ReadOnly)
+	loop := bw.Len()
+	emit.Opcodes(bw.BinWriter, opcode.DUP)
+	emit.Syscall(bw.BinWriter, interopnames.SystemIteratorNext)
+	jmpPos := bw.Len()
+	emit.Instruction(bw.BinWriter, opcode.JMPIFNOT, []byte{0})
+	emit.Opcodes(bw.BinWriter, opcode.DUP)
+	emit.Syscall(bw.BinWriter, interopnames.SystemIteratorValue)
+	emit.Opcodes(bw.BinWriter, opcode.SWAP)
+	emit.Instruction(bw.BinWriter, opcode.JMP, []byte{byte(int8(loop - bw.Len()))})
+	endPos := bw.Len()
+	emit.Opcodes(bw.BinWriter, opcode.DROP)
+	// calls into the generated contracts: their price depends on the cached whitelist / fee factors
+	for _, sl := range w.slots {
+		if sl.kv != nil && bc.GetContractState(sl.hash) != nil {
+			emit.AppCall(bw.BinWriter, sl.hash, "get", callflag.ReadOnly, []byte{1})
+			emit.AppCall(bw.BinWriter, sl.hash, "ver", callflag.ReadOnly)
+		}
+	}
 	for i := 0; i < w.nkeys; i++ {
 		emit.AppCall(bw.BinWriter, nativehashes.PolicyContract, "isBlocked", callflag.ReadOnly, w.net.Account(i))
 		emit.AppCall(bw.BinWriter, nativehashes.NeoToken, "getCandidateVote", callflag.ReadOnly, w.net.Pub(i).Bytes())
 	}
-	tx := transaction.New(bw.Bytes(), 0)
+	script := bw.Bytes()
+	script[jmpPos+1] = byte(int8(endPos - jmpPos))
+	tx := transaction.New(script, 0)
 	tx.Signers = []transaction.Signer{{Account: w.net.Account(0)}}
 	ic, err := bc.GetTestVM(trigger.Application, tx, nil)
 	if err != nil {
